@@ -114,8 +114,8 @@ pub fn gen_history(g: &mut Genes, cfg: &HistCfg) -> Json {
         };
         let op = match class {
             0 => {
-                let p = filt(g, ra, &["any", "element", "container", "detached-element", "recent"], &[1, 6, 2, 2, 1]);
-                let c = filt(g, rb, &["any", "content", "element", "leaf", "detached", "recent"], &[1, 4, 3, 2, 2, 2]);
+                let p = filt(g, ra, &["any", "element", "container", "detached-element", "recent", "document", "attr"], &[1, 6, 2, 2, 1, 1, 1]);
+                let c = filt(g, rb, &["any", "content", "element", "leaf", "detached", "recent", "doc-level", "expandedtext"], &[1, 4, 3, 2, 2, 2, 1, 1]);
                 let r = filt(g, rc, &["any", "content"], &[1, 3]);
                 // mostly a real child of the receiver as reference / old / removed child
                 let rel = g.chance(2, 3);
@@ -316,6 +316,11 @@ pub fn matches_filter(n: &XmlNode, f: &str, index: usize, len: usize) -> bool {
         "recent" => index + 6 >= len,
         "detached" => n.parent_node().is_none() && !matches!(n, XmlNode::Document(_) | XmlNode::Attribute(_) | XmlNode::DocumentType(_)),
         "detached-element" => n.parent_node().is_none() && matches!(n, XmlNode::Element(_)),
+        "document" => matches!(n, XmlNode::Document(_)),
+        // what lives directly below a document: its document type and its document element
+        "doc-level" => matches!(n, XmlNode::DocumentType(_)) || (matches!(n, XmlNode::Element(_)) && matches!(n.parent_node(), Some(XmlNode::Document(_)))),
+        // a merged text node with several pieces (merged-text view only)
+        "expandedtext" => matches!(n, XmlNode::ExpandedText(_)),
         _ => true,
     }
 }
